@@ -712,13 +712,45 @@ func CensusOf(dump string) (lib []string, maxRepeat int) {
 	return
 }
 
+// yield policy of the scenario currently running (one bubble at a time per process)
+var curRunner atomic.Pointer[Runner]
+
+// YieldHook is installed as leader.VerifYield by the sim engine.
+func YieldHook(site string) {
+	r := curRunner.Load()
+	if r == nil || r.Spec.YieldP <= 0 {
+		return
+	}
+	r.St.mu.Lock()
+	hit := r.St.rng.Float64() < r.Spec.YieldP
+	var d time.Duration
+	if hit && r.Spec.YieldMax > 0 {
+		d = time.Duration(r.St.rng.Int64N(int64(r.Spec.YieldMax) + 1))
+	}
+	r.St.mu.Unlock()
+	if !hit {
+		return
+	}
+	r.add(Event{Kind: "yield", S: site, N: int64(d)})
+	if d > 0 {
+		select {
+		case <-time.After(d):
+		case <-r.quit:
+		}
+	} else {
+		runtime.Gosched()
+	}
+}
+
 // RunSpec executes one scenario inside a synctest bubble. done is invoked with
 // the trace inside the bubble, before the bubble exits (synctest panics at exit
 // if blocked goroutines remain; the result must have been written by then).
 func RunSpec(t *testing.T, spec *Spec, done func(events []Event)) {
 	synctest.Test(t, func(t *testing.T) {
 		r := newRunner(t, spec)
+		curRunner.Store(r)
 		r.run()
+		curRunner.Store(nil)
 		done(r.Tr.Copy())
 	})
 }
